@@ -575,6 +575,7 @@ func (ww *Walker) walkStatement() (Fragment, *unexpectedTokenError) {
 		return hdr, nil
 
 	case COMMENT:
+		hdr.End = ww.currentPos()
 		comment, err := ww.endStatement()
 		if err != nil {
 			return hdr, err
